@@ -4,7 +4,12 @@ Spec: spec/SymLookup.tla - fill_symbol defined declaratively by linear scan (FUN
 the FUNC cut-off, STACK WIN parameter sizes, line records incl. dropped zero-size ones, inline chains to depth 3
 with a multi-range record).  Binding: G - every symbol file TLC builds (record by record) is rendered in three
 record orders, parsed by the real parser and queried through SymbolFile::fill_symbol with a recording
-FrameSymbolizer at every address of the domain under module bases 0, 2^63 and 2^64-16; equality is the property."""
+FrameSymbolizer at every address of the domain under module bases 0, 2^63 and 2^64-16; equality is the property.
+spec/SymParse.tla - the record-level state machine of the parser (top level / inside FUNC / inside STACK CFI INIT, which
+lines are sublines, which close the open item, which fail the parse and at which line, MODULE only first, the final
+sort and the overlap rule): every line sequence of <= MaxLen tokens of a 28-token alphabet is rendered, parsed by the
+real SymbolFile::from_bytes, and the FUNC / line / PUBLIC / FILE / INLINE_ORIGIN tables compared (the tables fill_symbol
+reads); STACK tables, URL and error line numbers are compared as drift."""
 import json
 from . import core
 
@@ -19,16 +24,26 @@ def run(ctx):
     for need in ("func", "func+line", "func+inlines", "public", "none"):
         if rep["classes"].get(need, 0) == 0:
             raise core.ToolFailure("vacuous replay: class %s never exercised" % need)
+    sp = ctx.tlc("SymParse", "MC_SymParse_" + ctx.tier, coverage="separate", required_actions=["Feed"], timeout=6000, out_name="symparse")
+    if sp.violated:
+        raise core.ToolFailure("design-level invariant %s of SymParse.tla is violated in the model" % sp.violated)
+    rep2 = ctx.read_harness_report(ctx.harness("replay_symparse", [sp.out_path], out_name="replay_symparse.out", timeout=3000))
+    for need in ("model:error", "model:table"):
+        if rep2["classes"].get(need, 0) == 0:
+            raise core.ToolFailure("vacuous replay: SymParse class %s never exercised" % need)
+    if rep2["drift"]:
+        ctx.drift.extend([None] * rep2["drift"])
     cov = {
-        "states": mc.distinct, "transitions": mc.generated,
-        "traces_validated_against_impl": rep["evaluations"],
+        "states": mc.distinct + sp.distinct, "transitions": mc.generated + sp.generated,
+        "traces_validated_against_impl": rep["evaluations"] + rep2["evaluations"],
         "samples": rep["samples"][:5],
         "exhaustive": True,
-        "evaluations": rep["evaluations"], "distinct_nontrivial": rep["distinct_nontrivial"],
+        "evaluations": rep["evaluations"] + rep2["evaluations"], "distinct_nontrivial": rep["distinct_nontrivial"] + rep2["distinct_nontrivial"],
         "rule": "every symbol file reachable by adding <= MaxRecs records from the candidate pools (4 FUNC incl. a zero-size one, 3 PUBLIC incl. one at a "
                 "FUNC's address, 4 line records incl. zero-size, 4 INLINE records at depths 0-2 incl. a two-range one, 2 STACK WIN) x 13 addresses x 3 "
-                "module bases (non-trivial = distinct file with at least one symbolised address)",
-        "tlc": {"SymLookup": mc.as_dict()}, "replay_classes": rep["classes"],
+                "module bases (non-trivial = distinct file with at least one symbolised address); SymParse: every sequence of <= MaxLen lines over 28 line tokens "
+                "(every record kind, duplicates, overlaps by one byte, zero sizes, malformed INLINE, blank and garbage lines)",
+        "tlc": {"SymLookup": mc.as_dict(), "SymParse": sp.as_dict()}, "replay_classes": rep["classes"], "symparse_classes": rep2["classes"],
     }
     return ctx.finish("model_checking", cov, assumptions=[
         "documented semantics as transcribed in SymLookup.tla (mod.rs comments on PUBLIC cut-off, inline pairing, STACK WIN parameter sizes)",
